@@ -171,7 +171,11 @@ fn drive(ctx: &mut Ctx, tally: &mut Tally, eps: &[usize], b: &[u8], tagged: &mut
     let multi = refspec::n_subtags(b) >= 2;
     for &ep in eps {
         ctx.evals += 1;
-        match call_ep(ep, b) {
+        let res = call_ep(ep, b);
+        if multi && b.len() > 8 && (ep * 7 + b.len()) % 5 == 0 && ctx.wants_sample(EPS[ep]) {
+            ctx.sample(EPS[ep], || json!({"entry_point": EPS[ep], "input": String::from_utf8_lossy(&b[..b.len().min(80)]), "returned": match &res { Ok(true) => "Ok", Ok(false) => "Err", Err(_) => "PANIC" }}));
+        }
+        match res {
             Ok(true) => {
                 tally.ok[ep] += 1;
                 if multi {
